@@ -5,15 +5,12 @@
 //@ def thorough STRN=12
 //@ enforce XMLString_copyString
 //@ enforce XMLString_catString
-//@ enforce XMLString_cut
 //@ enforce XMLString_subString6
-//@ enforce XMLString_subString5
 //@ replace XMLString_stringLen
-//@ replace XMLString_subString6
 //@ entry h_str_copy
 //@ note P: iterations unbounded through loop contracts; string buffers bounded by -DSTRN; target buffers are handed END-aligned with exactly the documented room (copyString/catString: length of the result + 1; subString: endIndex-startIndex+1), so one element too many leaves the object
 //@ note stringLen is replaced by the contract proved in unit str_len; the harness is loop-free, each enforced function is called once
-//@ note preconditions taken from XMLString.hpp: source and target do not overlap; cut: count <= length (the header gives no behaviour otherwise)
+//@ note preconditions taken from XMLString.hpp: source and target do not overlap
 #define VERIF_DEFINE_GHOSTS
 #include "verif_prelude.h"
 //@ include str_common.inc
@@ -63,35 +60,13 @@ __CPROVER_loop_invariant((G < PIDX(pszTmp, src)) ==> target[LEN1 + CL(G, LEN2)] 
 __CPROVER_decreases(LEN2 - PIDX(pszTmp, src))
 @*/
 
-/*@extract src/xercesc/util/XMLString.cpp XMLString::cut
-contract
-__CPROVER_requires(G < STRN && LEN1 < STRN && count <= LEN1)
-__CPROVER_requires(STR_IS(toCutFrom, LEN1) && __CPROVER_w_ok(toCutFrom, (LEN1 + 1) * sizeof(XMLCh)))
-__CPROVER_assigns(__CPROVER_object_upto(toCutFrom, (LEN1 + 1) * sizeof(XMLCh)))
-__CPROVER_ensures(toCutFrom[LEN1 - count] == 0)
-__CPROVER_ensures((G < LEN1 - count) ==> toCutFrom[CL(G, LEN1)] == __CPROVER_old(toCutFrom[CL(G + count, LEN1)]))
-loop 1
-__CPROVER_assigns(srcPtr, targetPtr, __CPROVER_object_upto(toCutFrom, (LEN1 + 1) * sizeof(XMLCh)))
-__CPROVER_loop_invariant(PTR_IN(srcPtr, toCutFrom, LEN1) && PTR_IN(targetPtr, toCutFrom, LEN1) && PIDX(srcPtr, toCutFrom) == PIDX(targetPtr, toCutFrom) + count)
-__CPROVER_loop_invariant(toCutFrom[LEN1] == 0 && NONUL_RANGE(toCutFrom, PIDX(srcPtr, toCutFrom), LEN1))
-__CPROVER_loop_invariant((G < PIDX(targetPtr, toCutFrom)) ==> toCutFrom[CL(G, LEN1)] == __CPROVER_loop_entry(toCutFrom[CL(G + count, LEN1)]))
-__CPROVER_loop_invariant((G >= PIDX(targetPtr, toCutFrom) && G + count <= LEN1) ==> toCutFrom[CL(G + count, LEN1)] == __CPROVER_loop_entry(toCutFrom[CL(G + count, LEN1)]))
-__CPROVER_decreases(LEN1 - PIDX(srcPtr, toCutFrom))
-@*/
 
 #define SUB_VALID (startIndex <= endIndex && endIndex <= srcStrLength)
 /*@extract src/xercesc/util/XMLString.cpp XMLString::subString
 as XMLString_subString6
 params XMLCh* const targetStr, const XMLCh* const srcStr , const XMLSize_t startIndex, const XMLSize_t endIndex , const XMLSize_t srcStrLength
 contract
-__CPROVER_requires(G < STRN && srcStrLength < STRN && !verif_thrown)
-__CPROVER_requires(__CPROVER_r_ok(srcStr, (srcStrLength + 1) * sizeof(XMLCh)))
-__CPROVER_requires(targetStr == 0 || (!__CPROVER_same_object(srcStr, targetStr) && __CPROVER_w_ok(targetStr, (SUB_VALID ? endIndex - startIndex + 1 : 0) * sizeof(XMLCh))))
-__CPROVER_assigns(__CPROVER_object_upto(targetStr, IFZ(SUB_VALID, endIndex - startIndex + 1) * sizeof(XMLCh)), verif_thrown, verif_throw_type, verif_throw_code)
-__CPROVER_ensures(targetStr == 0 ==> (verif_thrown && verif_throw_type == VT_IllegalArgumentException))
-__CPROVER_ensures((targetStr != 0 && !SUB_VALID) ==> (verif_thrown && verif_throw_type == VT_ArrayIndexOutOfBoundsException))
-__CPROVER_ensures((targetStr != 0 && SUB_VALID) ==> (!verif_thrown && targetStr[endIndex - startIndex] == 0))
-__CPROVER_ensures((targetStr != 0 && SUB_VALID && G < endIndex - startIndex) ==> targetStr[CL(G, srcStrLength)] == srcStr[CL(startIndex + G, srcStrLength)])
+//@ include str_subString6.contract.inc
 loop 1
 __CPROVER_assigns(i, __CPROVER_object_upto(targetStr, (endIndex - startIndex + 1) * sizeof(XMLCh)))
 __CPROVER_loop_invariant(startIndex <= i && i <= endIndex)
@@ -99,32 +74,14 @@ __CPROVER_loop_invariant((G < i - startIndex) ==> targetStr[CL(G, srcStrLength)]
 __CPROVER_decreases(endIndex - i)
 @*/
 
-#undef SUB_VALID
-#define SUB_VALID (startIndex <= endIndex && endIndex <= LEN1)
-/*@extract src/xercesc/util/XMLString.cpp XMLString::subString
-as XMLString_subString5
-params XMLCh* const targetStr, const XMLCh* const srcStr , const XMLSize_t startIndex, const XMLSize_t endIndex , MemoryManager* const manager
-sub (?<!:)\bsubString\( => XMLString_subString6(
-call stringLen => XMLString_stringLen
-throws XMLString_subString6
-contract
-__CPROVER_requires(G < STRN && LEN1 < STRN && !verif_thrown)
-__CPROVER_requires(STR_IS(srcStr, LEN1))
-__CPROVER_requires(targetStr == 0 || (!__CPROVER_same_object(srcStr, targetStr) && __CPROVER_w_ok(targetStr, (SUB_VALID ? endIndex - startIndex + 1 : 0) * sizeof(XMLCh))))
-__CPROVER_assigns(__CPROVER_object_upto(targetStr, IFZ(SUB_VALID, endIndex - startIndex + 1) * sizeof(XMLCh)), verif_thrown, verif_throw_type, verif_throw_code)
-__CPROVER_ensures(targetStr == 0 ==> (verif_thrown && verif_throw_type == VT_IllegalArgumentException))
-__CPROVER_ensures((targetStr != 0 && !SUB_VALID) ==> (verif_thrown && verif_throw_type == VT_ArrayIndexOutOfBoundsException))
-__CPROVER_ensures((targetStr != 0 && SUB_VALID) ==> (!verif_thrown && targetStr[endIndex - startIndex] == 0))
-__CPROVER_ensures((targetStr != 0 && SUB_VALID && G < endIndex - startIndex) ==> targetStr[CL(G, LEN1)] == srcStr[CL(startIndex + G, LEN1)])
-@*/
 
 struct { XMLCh a[STRN]; } S1, S2, T1;
 struct { XMLCh a[2 * STRN - 1]; } T2;
 void h_str_copy(void)
 {
-  XMLSize_t l1, l2, count, si, ei; _Bool isnull, tnull;
+  XMLSize_t l1, l2, si, ei; _Bool isnull, tnull;
   VERIF_INPUT(S1); VERIF_INPUT(S2); VERIF_INPUT(T1); VERIF_INPUT(T2); VERIF_INPUT(G);
-  VERIF_INPUT(l1); VERIF_INPUT(l2); VERIF_INPUT(count); VERIF_INPUT(si); VERIF_INPUT(ei); VERIF_INPUT(isnull); VERIF_INPUT(tnull);
+  VERIF_INPUT(l1); VERIF_INPUT(l2); VERIF_INPUT(si); VERIF_INPUT(ei); VERIF_INPUT(isnull); VERIF_INPUT(tnull);
   VERIF_ASSUME(l1 < STRN && l2 < STRN);
   /* every buffer END-aligned */
   XMLCh *s1 = S1.a + (STRN - (l1 + 1));
@@ -134,22 +91,18 @@ void h_str_copy(void)
   LEN1 = l1;
   XMLString_copyString(T1.a + (STRN - (isnull ? 1 : l1 + 1)), isnull ? (const XMLCh *)0 : s1);
   VERIF_CANARY("after copyString");
+  if (isnull) VERIF_CANARY("copyString: null source case reachable");
 
   /* catString: T2 holds a string of length l1 in a buffer with room for l1 + l2 + 1 */
   LEN1 = l1; LEN2 = l2;
   XMLString_catString(T2.a + (2 * STRN - 1 - (l1 + l2 + 1)), s2);
   VERIF_CANARY("after catString");
 
-  LEN1 = l1;
-  XMLString_cut(s1, count);
-  VERIF_CANARY("after cut");
-
   XMLSize_t room = (si <= ei && ei <= l2) ? ei - si + 1 : 0;
   verif_thrown = 0;
   XMLString_subString6(tnull ? (XMLCh *)0 : T1.a + (STRN - room), s2, si, ei, l2, (MemoryManager *)0);
   VERIF_CANARY("after subString6");
+  if (!tnull && room == 0) VERIF_CANARY("subString6: bad indices case reachable");
+  if (tnull) VERIF_CANARY("subString6: null target case reachable");
 
-  LEN1 = l2; verif_thrown = 0;
-  XMLString_subString5(tnull ? (XMLCh *)0 : T1.a + (STRN - room), s2, si, ei, (MemoryManager *)0);
-  VERIF_CANARY("after subString5");
 }
